@@ -296,6 +296,10 @@ fn extreme_templates() -> Vec<String> {
         v.push(format!("{}nope;{}", "{ ".repeat(depth), " }".repeat(depth)));
         v.push(format!("(nope + {}nope{});", "(1 * ".repeat(depth), ")".repeat(depth)));
     }
+    // loop variables of a type that is not a scalar type
+    for t in ["for array[int, 3] a in x { }", "int[8] x; for array[float[32], 2] a in x a;", "for array[int, 3] a in {1, 2} { a; }", "for array[int, 3] a in [0:1] { }"] {
+        v.push(t.to_string());
+    }
     // an include (library, missing file, malformed path) as the brace-less body of every control
     // flow statement, at top level and one level down
     for path in ["stdgates.inc", "missing_file.inc", "a\\qb.inc"] {
